@@ -143,6 +143,25 @@ func runAddrCase(c *addrCase, tmp string) tr.M {
 			l.Close()
 		}
 	}
+	if c.Hist == "busy" {
+		// somebody else already listens on that very address
+		rest := s
+		if i := strings.IndexByte(rest, ';'); i >= 0 {
+			rest = rest[:i]
+		}
+		var occ net.Listener
+		switch {
+		case strings.HasPrefix(rest, "unix:@") && len(rest) > len("unix:@"):
+			occ, _ = net.Listen("unix", rest[len("unix:"):])
+		case strings.HasPrefix(rest, "unix:") && path != "":
+			occ, _ = net.Listen("unix", path)
+		case strings.HasPrefix(rest, "tcp:"):
+			occ, _ = net.Listen("tcp", rest[len("tcp:"):])
+		}
+		if occ != nil {
+			defer occ.Close()
+		}
+	}
 	var l0 net.Listener
 	if c.Hist == "after" {
 		// an earlier successful Bind on the same object, never served
